@@ -8,7 +8,7 @@ from .lin import CSet, le, ge, eq, lin
 
 
 class E4:
-    def __init__(self, facts, havoc=None, keep_instates=False, soft_widen=False, probes=(), rule_c06a=False, force_ret=None):
+    def __init__(self, facts, havoc=None, keep_instates=False, soft_widen=False, probes=(), rule_c06a=False, force_ret=None, opaque=()):
         """facts: analysis.facts.Facts"""
         OBLIGATIONS.clear()
         UNMODELLED.clear()
@@ -23,6 +23,7 @@ class E4:
         self.an.probe_spec = list(probes)
         self.an.rule_c06a = rule_c06a
         self.an.force_ret = dict(force_ret or {})
+        self.an.opaque = list(opaque)
         self.times = {}
 
     def summarize(self, key):
